@@ -598,6 +598,44 @@ static void he_case(uint64_t idx, void *ctx)
     mc_outcome(idx);
 }
 
+/* ------------------------------------------------------------------ positions and counts at the far ends of the 64-bit index type */
+static const long long EXT[] = { 0, 1, -1, 5, -5, 11, -11, 12, -12, 2147483647LL, 2147483648LL, 2147483649LL, -2147483647LL, -2147483648LL, -2147483649LL, 4294967291LL, 4294967296LL, 4294967301LL, -4294967291LL, -4294967296LL, -4294967301LL,
+                                 3298534883339LL, -3298534883339LL, 9223372036854775807LL, -9223372036854775807LL - 1, -9223372036854775807LL, -9223372036854775803LL };
+#define NEXT ((int) (sizeof EXT / sizeof EXT[0]))
+static void ex_desc(uint64_t idx, void *ctx, char *b, size_t n) { (void) ctx; snprintf(b, n, CLS " \"hello world\": substr, substr_to_ptr, splice(\"XY\"), splice_from_ptr(\"XY\") with position %lld and count %lld", EXT[idx / NEXT], EXT[idx % NEXT]); }
+static void ex_case(uint64_t idx, void *ctx)
+{
+    long long I = EXT[idx / NEXT], C = EXT[idx % NEXT]; (void) ctx;
+    const char *text = "hello world"; const int n = 11;
+    const char *shape = (I > 2147483647LL || I < -2147483648LL || C > 2147483647LL || C < -2147483648LL) ? "position or count beyond 32 bits" : "position and count within 32 bits";
+    mc_set_shape(shape);
+    /* the reference, in 128-bit arithmetic */
+    __int128 st = I < 0 ? (__int128) I + n : I; int sub_ok = st >= 0 && st < n; __int128 sc = 0;
+    if (sub_ok) { sc = C <= 0 ? (__int128) n - st + C : C; if (sc < 0) sub_ok = 0; else if (sc > n - st) sc = n - st; }
+    __int128 si = st, spc = C; int spl_ok = si >= 0 && si < n;
+    if (spl_ok) { if (spc < 0) spc = si + n + spc; if (spc < 0 || spc > n - si) spl_ok = 0; }
+    { T o = F(new_from_ptr)((spif_charptr_t) text);
+      T r = F(substr)(o, (IDX) I, (IDX) C); char *p = (char *) F(substr_to_ptr)(o, (IDX) I, (IDX) C);
+      if (sub_ok) { if (!r || !r->s || r->len != (IDX) sc || memcmp(r->s, text + (int) st, (size_t) sc)) FAIL(CLS "_substr", "model:content", shape, "substr(%lld,%lld) is not the %d-character slice at %d", I, C, (int) sc, (int) st);
+                    if (!p || strlen(p) != (size_t) sc || memcmp(p, text + (int) st, (size_t) sc)) FAIL(CLS "_substr_to_ptr", "model:content", shape, "substr_to_ptr(%lld,%lld) is not the %d-character slice at %d", I, C, (int) sc, (int) st); }
+      else { if (r) FAIL(CLS "_substr", "model:not-refused", shape, "substr(%lld,%lld) on 11 characters must be refused", I, C); if (p) FAIL(CLS "_substr_to_ptr", "model:not-refused", shape, "substr_to_ptr(%lld,%lld) on 11 characters must be refused", I, C); }
+      if (r) F(del)(r); free(p);
+      if (strcmp((char *) o->s, text)) FAIL(CLS "_substr", "model:original-changed", shape, "the text changed");
+      F(del)(o); }
+    for (int via_ptr = 0; via_ptr < 2; via_ptr++) {
+        T o = F(new_from_ptr)((spif_charptr_t) text), x = F(new_from_ptr)((spif_charptr_t) "XY");
+        spif_bool_t r = via_ptr ? F(splice_from_ptr)(o, (IDX) I, (IDX) C, (spif_charptr_t) "XY") : F(splice)(o, (IDX) I, (IDX) C, x);
+        const char *site = via_ptr ? CLS "_splice_from_ptr" : CLS "_splice";
+        char exp[32];
+        if (spl_ok) { memcpy(exp, text, (size_t) si); memcpy(exp + (int) si, "XY", 2); strcpy(exp + (int) si + 2, text + (int) (si + spc)); } else strcpy(exp, text);
+        if ((r ? 1 : 0) != spl_ok) FAIL(site, spl_ok ? "model:refused" : "model:not-refused", shape, "splice(%lld,%lld) on 11 characters returned %d", I, C, (int) r);
+        if (!o->s || strcmp((char *) o->s, exp) || o->len != (IDX) strlen(exp) || o->size <= o->len) FAIL(site, "model:content", shape, "after splice(%lld,%lld) the text is \"%.30s\" (len %ld), expected \"%s\"", I, C, o->s ? (char *) o->s : "(null)", (long) o->len, exp);
+        F(del)(x); F(del)(o);
+    }
+    mc_nontrivial();
+    mc_outcome((uint64_t) sub_ok * 2 + (uint64_t) spl_ok + idx * 4);
+}
+
 /* ------------------------------------------------------------------ long texts: every operation once on a text of n characters, n around 127/255/256/4096/65536 */
 static const int LT[] = { 126, 127, 128, 254, 255, 256, 257, 4094, 4095, 4096, 4097, 32767, 32768, 65534, 65535, 65536, 65537 };
 #define NLT ((int) (sizeof LT / sizeof LT[0]))
@@ -716,6 +754,7 @@ int main(int argc, char **argv)
     g_dev = (int) mc_arg_int("dev", 2);
     if (!mc_arg("only", NULL) || !strcmp(mc_arg("only", ""), "ctor"))
         mc_e2_level(CLS "_stream_ctor", g_k * 10 + g_dev, (uint64_t) NSRC * 6 * NLENS, sc_case, sc_desc, NULL);
+    if (!mc_arg("only", NULL)) mc_e2_level(CLS "_extreme_index", 64, (uint64_t) NEXT * NEXT, ex_case, ex_desc, NULL);
     if (!mc_arg("only", NULL)) mc_e2_level(CLS "_long_text", 65537, (uint64_t) NLT * NLO, lt_case, lt_desc, NULL);
     if (!mc_arg("only", NULL)) { mc_e2_level(CLS "_stream_history", 1, 30, sh_case, sh_desc, NULL); mc_e2_level(CLS "_fd_hard_error", 1, NHE, he_case, he_desc, NULL); }
     if (!mc_arg("only", NULL)) { int maxn = (int) mc_arg_int("spmax", mc_thorough() ? 9000 : 700); mc_e2_level(CLS "_sprintf_len", maxn, (uint64_t) (maxn + 1) * 3, sp_case, sp_desc, NULL); }
